@@ -35,6 +35,7 @@ CONSTANTS
     DataKinds,    \* subset of {"pat", "inv"}
     ReadVariant,  \* "tail": code as written;  "aligned": candidate fix
     Emit,         \* "none" | "cases" (print every transition) | "hist" (print complete histories)
+                  \* | "cover" (REG: print the probe set/get/resume of every (register, value))
     Regs,         \* register names
     InitMem,      \* "pattern" | "pack" (the puppet's struct, for the variable cases)
     DisVariant    \* "masked" (disasm.rs as written) | "masked_excl" (candidate fix) | "raw" (DAP)
@@ -254,10 +255,11 @@ RegJson(l) == [op |-> l.k, reg |-> l.r, val |-> l.v, spec_regs |-> l.sregs, spec
                alg_get |-> l.aget, spec_seen |-> l.sseen]
 RecordReg(l) ==
     /\ last' = l
-    /\ hist' = IF Emit = "hist" THEN Append(hist, RegJson(l)) ELSE hist
+    /\ hist' = IF Emit \in {"hist", "cover"} THEN Append(hist, RegJson(l)) ELSE hist
     /\ nops' = nops + 1
     /\ (Emit = "cases") => PrintT(<<"CASE", ToJson(RegJson(l))>>)
     /\ (Emit = "hist" /\ nops + 1 = MaxOps) => PrintT(<<"HIST", ToJson(Append(hist, RegJson(l)))>>)
+    /\ (Emit = "cover" /\ l.k # "set") => PrintT(<<"HIST", ToJson(Append(hist, RegJson(l)))>>)
 
 RSet(r, v) ==
     /\ regs' = AlgSetReg(regs, r, v)
@@ -348,9 +350,10 @@ DoRead       == \E an \in Accesses : More /\ Read(an[1], an[2]) /\ UNCHANGED <<r
 DoWriteBytes == \E an \in Accesses, dk \in DataKinds : More /\ WriteBytes(an[1], an[2], dk) /\ UNCHANGED <<regvars, disvars>>
 DoWriteVar   == \E f \in Fields : \E dk \in KindsFor(f[3]) : More /\ WriteVar(f, dk) /\ UNCHANGED <<regvars, disvars>>
 DoWriteWord  == \E a \in Space, dk \in DataKinds : More /\ WriteWord(a, dk) /\ UNCHANGED <<regvars, disvars>>
-DoSetReg     == \E r \in Regs : \E v \in ValsOf(r) : More /\ RSet(r, v) /\ UNCHANGED <<memvars, disvars>>
-DoGetReg     == \E r \in Regs : More /\ RGet(r) /\ UNCHANGED <<memvars, disvars>>
-DoResume     == More /\ RResume /\ UNCHANGED <<memvars, disvars>>
+\* Emit = "cover": only the probes  set(r, v); get(r); resume  for every (r, v), printed as they grow
+DoSetReg     == \E r \in Regs : \E v \in ValsOf(r) : More /\ (Emit = "cover" => nops = 0) /\ RSet(r, v) /\ UNCHANGED <<memvars, disvars>>
+DoGetReg     == \E r \in Regs : More /\ (Emit = "cover" => nops = 1 /\ r = last.r) /\ RGet(r) /\ UNCHANGED <<memvars, disvars>>
+DoResume     == More /\ (Emit = "cover" => nops = 2) /\ RResume /\ UNCHANGED <<memvars, disvars>>
 DoSetBp      == \E a \in Sites : More /\ DSetBp(a) /\ UNCHANGED <<memvars, regvars>>
 DoRemoveBp   == \E a \in Sites : More /\ DRemoveBp(a) /\ UNCHANGED <<memvars, regvars>>
 DoDisasm     == More /\ DDisasm /\ UNCHANGED <<memvars, regvars>>
